@@ -480,14 +480,19 @@ func serverForwardResponses(
 			//	The server SHOULD send a "close" connection option in its final response on that connection.
 			//
 			// It's not a "MUST", so we check both.
+			//
+			// An interim (1xx informational) response is not the final response:
+			// keep forwarding until the final one has been delivered.
+			if resp.StatusCode < http.StatusOK {
+				continue
+			}
+
 			if req.Close || resp.Close {
 				return errPayloadAfterFinalResponse
 			}
 
-			// If the response is final (not 1xx informational), we are done.
-			if resp.StatusCode >= http.StatusOK {
-				break
-			}
+			// The response is final, we are done.
+			break
 		}
 	}
 }
